@@ -91,6 +91,8 @@ type Explorer struct {
 	pathStart    time.Time
 	frozen       int
 	donate       func()
+	ForkSites    map[string]int
+	curExec      *Exec
 	Params       map[string]int
 }
 
@@ -161,6 +163,7 @@ func (x *Explorer) runOne(fn *ssa.Function) {
 	x.tainted = false
 	x.concVarN = 0
 	ex := &Exec{P: x.Prog, B: x.B, X: x, globals: map[*ssa.Global]*Object{}, ghost: map[string]interface{}{}}
+	x.curExec = ex
 	defer func() {
 		if r := recover(); r != nil {
 			switch p := r.(type) {
@@ -333,6 +336,9 @@ func (x *Explorer) Branch(c *Term) bool {
 	if c.Op == OConst {
 		return c.Val == 1
 	}
+	if x.curExec != nil && x.curExec.spec > 0 {
+		panic(&specAbort{})
+	}
 	if x.pos < len(x.script) {
 		d := x.script[x.pos]
 		x.pos++
@@ -358,6 +364,9 @@ func (x *Explorer) Branch(c *Term) bool {
 	switch {
 	case okT && okF:
 		d.taken, d.hasAlt = true, true
+		if x.ForkSites != nil {
+			x.ForkSites[x.siteOf()]++
+		}
 	case okT:
 		d.taken = true
 	case okF:
@@ -375,7 +384,15 @@ func (x *Explorer) Branch(c *Term) bool {
 	return d.taken
 }
 
-// Assume adds c to the path condition; an infeasible assumption ends the path.
+func (x *Explorer) siteOf() string {
+	if x.curExec == nil || x.curFrame == nil {
+		return "?"
+	}
+	return x.curExec.where(x.curFrame)
+}
+
+// Assume adds c to the path condition; an infeasible assumption ends the
+// path. Unlike Branch it never explores the other side.
 func (x *Explorer) Assume(c *Term) {
 	if c.Op == OConst {
 		if c.Val == 0 {
@@ -383,9 +400,30 @@ func (x *Explorer) Assume(c *Term) {
 		}
 		return
 	}
-	if !x.Branch(c) {
+	if x.pos < len(x.script) {
+		d := x.script[x.pos]
+		x.pos++
+		if d.kind != 'a' {
+			panic("script desync (assume)")
+		}
+		if !d.taken {
+			panic(&abortPath{Kind: "assume", Reason: "assumption false"})
+		}
+		x.addConstraint(c)
+		return
+	}
+	r := x.feasible(c)
+	if r == Unknown {
+		x.Unknowns++
+		x.tainted = true
+	}
+	ok := r != Unsat
+	x.script = append(x.script, decision{kind: 'a', taken: ok})
+	x.pos++
+	if !ok {
 		panic(&abortPath{Kind: "assume", Reason: "assumption false"})
 	}
+	x.addConstraint(c)
 }
 
 // AssumeNoCheck adds a constraint known to be satisfiable (e.g. a bound on a fresh variable).
@@ -395,6 +433,9 @@ func (x *Explorer) AssumeNoCheck(c *Term) { x.addConstraint(c) }
 func (x *Explorer) Concretize(t *Term, what string) int64 {
 	if t.Op == OConst {
 		return sx(t.Val, t.W)
+	}
+	if x.curExec != nil && x.curExec.spec > 0 {
+		panic(&specAbort{})
 	}
 	var d *decision
 	if x.pos < len(x.script) {
@@ -432,6 +473,9 @@ func (x *Explorer) Concretize(t *Term, what string) int64 {
 	d.value = v
 	d.taken = true
 	d.more = true
+	if x.ForkSites != nil {
+		x.ForkSites["concretize "+what+" "+x.siteOf()]++
+	}
 	x.addConstraint(x.B.Eq(t, x.B.Const(t.W, uint64(v))))
 	return v
 }
@@ -473,6 +517,9 @@ func (x *Explorer) choose(n int) int {
 		return int(d.value)
 	}
 	x.script = append(x.script, decision{kind: 'p', value: 0, n: n, more: n > 1})
+	if x.ForkSites != nil {
+		x.ForkSites["choose "+x.siteOf()] += n - 1
+	}
 	x.pos++
 	return 0
 }
@@ -515,12 +562,18 @@ func (x *Explorer) Assert(ex *Exec, c *Term, label string, fr *frame) {
 		return
 	}
 	neg := x.B.Not(c)
-	as := append(append([]*Term(nil), x.pc...), neg)
-	r, model := x.Solver.Check(as, x.allInputTerms())
-	switch r {
+	switch x.feasible(neg) {
 	case Unsat:
 		return
 	case Unknown:
+		x.Unknowns++
+		x.Aborted["unknown-assert"]++
+		x.AbortSamples["unknown-assert:"+label] = x.describeInputs()
+		return
+	}
+	as := append(append([]*Term(nil), x.pc...), neg)
+	r, model := x.Solver.Check(as, x.allInputTerms())
+	if r != Sat {
 		x.Unknowns++
 		x.Aborted["unknown-assert"]++
 		x.AbortSamples["unknown-assert:"+label] = x.describeInputs()
